@@ -13,6 +13,12 @@
           an unordered collection (helpers expanded)
   C15.R4  no function writes class-level, module-level or escaping-closure state, also not through an alias; no observable cache
           (memoised functions are accepted only when they are pure functions of immutable arguments with an immutable result)
+  C15.R5  order-independent selection (c15_selection.py): in a loop (for / worklist) over a collection whose order is not part of
+          the contract - a set, a directory listing (iterdir / glob / listdir / scandir / walk), a sequence in the order in which a
+          caller of the public API listed its items - no keep-or-drop decision reads what earlier iterations of the same loop have
+          accumulated, except de-duplication on the element's own identity; a seen-set keyed by a derived value while the element
+          is kept, or any other test against the kept-so-far collection, is reported.  Sorted input and tests against a collection
+          that is complete before the loop are order independent
 
 Anchors are public API names (assert_applies, get_dependencies, ... , the constructor signature (modules, imports, ...)), library
 names (networkx.freeze, DiGraph.add_node / add_edge, dataclasses.replace, functools.lru_cache) and types - never private helpers,
@@ -951,7 +957,27 @@ class Order:
             # a set stays a set when it is handed to a parameter annotated Iterable/Sequence: remember its nature
             if isinstance(e, (ast.Name, ast.Attribute, ast.Call, ast.Set, ast.SetComp)) and set_typed(f, e):
                 return {"S"}
+            # a sequence handed to the public API arrives in the order in which the caller happened to list its items (tag L)
+            if isinstance(e, ast.Name) and listed_param(f, e.id):
+                return {"L"}
             return None
+
+        lp_memo: dict[tuple[str, str], bool] = {}
+
+        def listed_param(f: FuncInfo, name: str) -> bool:
+            k = (f.fq, name)
+            if k not in lp_memo:
+                ok = False
+                if not isinstance(f.node, ast.Lambda) and f.outer is None and name in f.param_names and name != Roots.self_name(f):
+                    public = (not f.name.startswith("_") or f.name in ("__init__", "__call__")) and (f.cls is None or not f.cls.name.startswith("_"))
+                    if public:
+                        try:
+                            t = T.param_type(f, name)
+                        except Exception:  # noqa: BLE001
+                            t = ("unknown",)
+                        ok = any(m[0] == "b" and m[1] in ("list", "seq", "tuple", "iter") for m in members(t))
+                lp_memo[k] = ok
+            return lp_memo[k]
 
         def transfer(f: FuncInfo, call: ast.Call, names, args, recv, kwargs):
             fn = call.func
@@ -976,7 +1002,7 @@ class Order:
             ms = members(t)
             if ms and all(m[0] in ("cls", "type", "fn") or (m[0] == "b" and m[1] in ("str", "int", "bool", "none", "float", "set", "frozenset")) for m in ms):
                 keep_s = any(m[0] == "b" and m[1] in ("set", "frozenset") for m in ms)
-                return frozenset(x for x in tags if x != "U" and (x != "S" or keep_s))
+                return frozenset(x for x in tags if x not in ("U", "L") and (x != "S" or keep_s))
             return tags
 
         self.flow = Flow(repo, T, Spec(sources=sources, transfer=transfer, post=post, sort_kills={"U", "S"}, loop_tag="U", unordered_tags=frozenset({"S"}), non_absorbed=frozenset({"S"}), unordered_iter=set_typed, objects_carry=False, opaque={"len", "isinstance", "hasattr", "bool", "any", "all", "sum", "min", "max", "set", "frozenset", "sorted"}))
@@ -988,6 +1014,12 @@ class Order:
         src = getattr(e, "_src", None)
         orig = src[1] if src is not None else e
         return bool({"U", "S"} & self.flow.tags(orig))
+
+    def listed(self, f: FuncInfo, e: ast.expr) -> bool:
+        """`e` holds items in the order in which a caller of the public API listed them."""
+        src = getattr(e, "_src", None)
+        orig = src[1] if src is not None else e
+        return "L" in self.flow.tags(orig)
 
     # ------------------------------------------------------------------ sinks
     def sinks(self) -> list[dict]:
@@ -1085,8 +1117,8 @@ def _fixture_repo(name: str):
     return tmp, Repo(tmp)
 
 
-def run_r3(repo: Repo, res: Result) -> None:
-    order = Order(repo)
+def run_r3(repo: Repo, res: Result, order: "Order | None" = None) -> None:
+    order = order or Order(repo)
     n = 0
     for s in order.sinks():
         f, node, sink_arg, what, ok = s["f"], s["node"], s["arg"], s["what"], s["ok"]
@@ -1277,6 +1309,129 @@ def run_r4(repo: Repo, res: Result) -> None:
         shutil.rmtree(tmp, ignore_errors=True)
 
 
+# --------------------------------------------------------------------------- R5
+
+
+def selections(repo: Repo, order: "Order | None" = None) -> list[dict]:
+    """Loops whose keep / drop decisions read state accumulated by earlier iterations (c15_selection.py), with the nature of the
+    collection they run over: unordered (set / hash order), listing (directory enumeration), listed (any other sequence)."""
+    from . import c15_selection as sel
+
+    T = types_of(repo)
+    order = order or Order(repo)
+    out = []
+    n_loops = 0
+    for f in repo.all_functions():
+        if isinstance(f.node, ast.Lambda) or not any(isinstance(n, (ast.For, ast.AsyncFor, ast.While)) for n in own_nodes(f.node)):
+            continue
+        v = inline_view(repo, f, T)
+        for info in sel.loops_of(v):
+            src = getattr(info.loop, "_src", None)
+            if src is not None and src[0] != f:
+                continue  # a loop of an expanded helper: judged in the helper itself
+            n_loops += 1
+            findings = sel.analyse(info)
+            if not findings:
+                continue
+            nature = _order_nature(order, v, info.source)
+            if nature is None:
+                continue  # sorted input, a fixed sequence, or an order that is the function's own business
+            for fd in findings:
+                out.append({"f": f, "loop": src[1] if src is not None else info.loop, "test": fd.test, "container": fd.container, "why": fd.why, "nature": nature, "elems": sorted(info.elems)})
+    return [{"loops": n_loops}, *out]
+
+
+_RANK = {None: 0, "listed": 1, "listing": 2, "unordered": 3}
+
+
+def _order_nature(order: "Order", v: FuncInfo, exprs: list[ast.expr], depth: int = 0, seen: set | None = None) -> str | None:
+    """Why the order of the elements is not part of the contract: 'unordered' (set / hash order), 'listing' (directory enumeration),
+    'listed' (order in which a caller of the public API listed the items); None for a sorted / fixed / internally determined order."""
+    from . import c15_selection as sel
+
+    seen = seen if seen is not None else set()
+    best: str | None = None
+
+    def up(n: str | None) -> None:
+        nonlocal best
+        if _RANK[n] > _RANK[best]:
+            best = n
+
+    for e in exprs:
+        if isinstance(e, ast.Starred):
+            e = e.value
+        if isinstance(e, ast.Call) and isinstance(e.func, ast.Name) and e.func.id == "sorted":
+            continue
+        if isinstance(e, ast.Call) and isinstance(e.func, ast.Attribute) and e.func.attr == "sort":
+            continue
+        if isinstance(e, (ast.List, ast.Tuple)):
+            # a display has the order it is written in; only unpacked parts bring an order of their own
+            for x in e.elts:
+                if isinstance(x, ast.Starred):
+                    up(_order_nature(order, v, [x.value], depth + 1, seen))
+            continue
+        if order.unordered(v, e):
+            up("unordered")
+            continue
+        if isinstance(e, ast.Call) and ((isinstance(e.func, ast.Attribute) and e.func.attr in sel.DIR_LISTING) or (isinstance(e.func, ast.Name) and e.func.id in sel.DIR_LISTING)):
+            up("listing")
+            continue
+        if isinstance(e, ast.Call) and isinstance(e.func, ast.Name) and e.func.id in ("list", "tuple", "iter", "reversed", "enumerate", "zip", "product", "chain", "filter") and depth < 4:
+            up(_order_nature(order, v, [a for a in e.args], depth + 1, seen))
+            continue
+        if isinstance(e, (ast.ListComp, ast.GeneratorExp)) and depth < 4:
+            up(_order_nature(order, v, [g.iter for g in e.generators], depth + 1, seen))
+            continue
+        if isinstance(e, ast.Name) and e.id not in seen and depth < 4 and not isinstance(v.node, ast.Lambda):
+            seen.add(e.id)
+            vals = []
+            sorted_in_place = False
+            for n in own_nodes(v.node):
+                if isinstance(n, (ast.Assign, ast.AnnAssign)) and n.value is not None and any(isinstance(t, ast.Name) and t.id == e.id for t in (n.targets if isinstance(n, ast.Assign) else [n.target])):
+                    vals.append(n.value)
+                elif isinstance(n, ast.Call) and isinstance(n.func, ast.Attribute) and n.func.attr == "sort" and dotted(n.func.value) == e.id:
+                    sorted_in_place = True
+                elif isinstance(n, ast.Call) and isinstance(n.func, ast.Attribute) and n.func.attr in ("append", "extend", "insert") and dotted(n.func.value) == e.id:
+                    vals += list(n.args)
+            if sorted_in_place:
+                continue
+            if vals:
+                up(_order_nature(order, v, vals, depth + 1, seen))
+        if order.listed(v, e):
+            up("listed")
+    return best
+
+
+def run_r5(repo: Repo, res: Result, order: "Order | None" = None) -> None:
+    found = selections(repo, order)
+    n_loops = found[0]["loops"]
+    what = {"unordered": "a set (hash order)", "listing": "a directory listing (enumeration order of the file system)", "listed": "a sequence whose order is the order in which the caller listed its items"}
+    for s in found[1:]:
+        f = s["f"]
+        res.add(
+            "C15.R5",
+            repo.key(f, s["loop"]) + f" [{norm(s['test'], 70)}]",
+            False,
+            f"the loop runs over {what[s['nature']]}, and {s['why']}: the result depends on the order of the elements",
+            where(f, s["test"]),
+            kind="structural",
+        )
+    res.add("C15.R5", "src::order-independent selection", len(found) == 1, f"{n_loops} loops (for / worklist) analysed: no keep-or-drop decision reads what earlier iterations accumulated, other than de-duplication on the element's own identity", kind="structural")
+    res.floor("C15.R5", 20, n_loops)
+    # positive fixture (the expected number of findings on the real tree is zero)
+    import shutil
+
+    tmp, frepo = _fixture_repo("selection.py")
+    try:
+        flagged = {s["f"].name for s in selections(frepo)[1:]}
+        want = {"bad_first_physical_location_wins", "bad_case_insensitive_first_wins", "bad_parents_retained_so_far", "bad_parents_retained_so_far_through_helper", "bad_first_three", "bad_listing_prefix_filter", "bad_flag_loop_over_retained"}
+        if flagged != want:
+            raise AnalysisError(f"C15.R5 fixture: order-dependent selections not recognised exactly (flagged {sorted(flagged)}, want {sorted(want)})")
+        res.add("C15.R5", "fixture::engine/rules/c15_fixtures/selection.py", True, f"positive fixture recognised: {sorted(flagged)}; de-duplication on the element, sorted input, tests against the complete input, grouping and closure idioms accepted", nontrivial=False)
+    finally:
+        shutil.rmtree(tmp, ignore_errors=True)
+
+
 def run(repo: Repo) -> Result:
     res = Result("C15")
     res.explanation = (
@@ -1288,15 +1443,18 @@ def run(repo: Repo) -> Result:
         "of a field of the entry point's receiver (alias rewrite of Rule._configuration), is checked to be idempotent and independent of the "
         "architecture; (R3) no set iteration order reaches text (join / f-string / str) without sorted, and no container is grown and shrunk "
         "inside one loop over an unordered collection; (R4) no function writes class-level, module-level or escaping-closure state and no "
-        "observable cache exists. Purity implies history-, re-application- and interleaving-independence of verdicts and messages; ordered "
+        "observable cache exists; (R5) no loop over a set, a directory listing or a caller-listed sequence decides to keep or drop an element "
+        "by looking at what earlier iterations kept (other than de-duplication on the element itself). Purity implies history-, re-application- and interleaving-independence of verdicts and messages; ordered "
         "sinks imply hash-seed independence of texts."
     )
     res.not_decided = "seed/ordering effects inside networkx/matplotlib; list order of `modules` (only set equality is claimed); dependence of texts on the order in which list arguments were given, other than through sets; the deprecated decorator's warnings.simplefilter calls (global library state, observed, outside the property's observables)."
     res.trusted_base = ["networkx.freeze makes every mutator raise", "engine resolver / call graph (CHA with name-based fallback)", "ownership analysis of rules/c15_roots.py: flow-insensitive per function, contents of containers kept apart to depth 3, dict keys and values of immutable static type carry no ownership"]
     run_r1(repo, res)
     run_r2(repo, res)
-    run_r3(repo, res)
+    order = Order(repo)
+    run_r3(repo, res, order)
     run_r4(repo, res)
+    run_r5(repo, res, order)
     for f in repo.all_functions():
         for c in calls_in(f.node):
             if dotted(c.func) == "warnings.simplefilter":
